@@ -124,6 +124,8 @@ var mysqlTypeAliases = map[string][]string{
 	"timestamp":     {"TIMESTAMP"},
 	"date":          {"DATE"},
 	"decimal(10,2)": {"DECIMAL(10,2)", "NUMERIC(10,2)", "decimal(10, 2)"},
+	"decimal(12,4)": {"DECIMAL(12,4)"},
+	"decimal(5,3)":  {"DECIMAL(5,3)", "decimal(5, 3)"},
 	"double":        {"DOUBLE"},
 	"float":         {"FLOAT"},
 	"json":          {"JSON"},
@@ -131,7 +133,7 @@ var mysqlTypeAliases = map[string][]string{
 }
 
 var mysqlTypes = []string{"int(11)", "bigint(20)", "tinyint(4)", "tinyint(1)", "smallint(6)", "varchar(64)", "varchar(255)",
-	"char(3)", "text", "longtext", "datetime", "timestamp", "date", "decimal(10,2)", "double", "float", "json", "enum('a','b')"}
+	"char(3)", "text", "longtext", "datetime", "timestamp", "date", "decimal(10,2)", "decimal(12,4)", "decimal(5,3)", "double", "float", "json", "enum('a','b')"}
 
 var pgTypeAliases = map[string][]string{
 	"INT8":        {"BIGINT", "INT8", "INT", "INTEGER"},
